@@ -41,4 +41,25 @@ theorem aipsw_arm_eq (generalize : Bool) (l : List (Row F)) (hw : ∀ r ∈ l, r
     · rw [sumIf_def, ← sumBy_one_length]; apply sumBy_congr; intro r hr
       simp [genTarget, hw r hr]
 
+/-- the generated marginal mean of `TimeFixedGFormula.fit` (no row lost to `dropna`) = the model's `gformula` -/
+theorem gformula_marginal_eq (hasWeights : Bool) (t : Tgt) (l : List (Row F)) (pred : Row F → F) (a : Bool)
+    (hw : hasWeights = false → ∀ r ∈ l, r.w = 1) :
+    Gen.gformula_marginal hasWeights t.str l pred (fun _ => true) = gformula l (fun r _ => pred r) t.mem a := by
+  unfold gformula W
+  cases hasWeights
+  · have hw' := hw rfl
+    cases t <;> simp only [Gen.gformula_marginal, Tgt.str] <;> simp <;> congr 1 <;> rw [sumIf_def] <;>
+      apply sumBy_congr <;> intro r hr <;> cases ha : r.a <;> simp [ha, Tgt.mem, hw' r hr]
+  · cases t <;> simp only [Gen.gformula_marginal, Tgt.str] <;> simp <;> congr 1 <;> rw [sumIf_def] <;>
+      apply sumBy_congr <;> intro r hr <;> cases ha : r.a <;> simp [ha, Tgt.mem]
+
+/-- one arm of the generated `IPSW.fit` = the model's `ipsw` (a Hájek mean over the sampled rows of the arm) -/
+theorem ipsw_arm_eq (l : List (Row F)) (ω : Row F → F) (a : Bool) :
+    ipsw l ω a
+      = sumBy (fun r => if (r.obs = true ∧ r.a = a) then (ω r * r.w) * r.y else 0) l
+        / sumBy (fun r => if (r.obs = true ∧ r.a = a) then ω r * r.w else 0) l := by
+  unfold ipsw hajek
+  congr 1 <;> rw [sumIf_def] <;> apply sumBy_congr <;> intro r _ <;>
+    cases ho : r.obs <;> cases ha : r.a <;> cases a <;> simp [ho, ha, mul_assoc]
+
 end ZV.Std
